@@ -165,6 +165,25 @@ CLAIMED.update({
          CORE_TRUST, 'DESIGN.md section 5 C12, Appendix E'),
 })
 
+CLAIMED.update({
+ 'C03': ('Coq proof over a Gallina model of wn._export (_export_lexicon and everything it calls, _precheck) written from '
+         'wn/_export.py on top of the query model; tied to the code by differential correspondence of the exported dictionaries on '
+         'generated databases (versions 1.0/1.1/1.3, databases holding extensions); the round trip itself (export, load, add to an '
+         'empty database, compare observations and the loaded document) is decided on the real code by the oracle',
+         'Partial. Theorems (closed under the global context) cover the export step: clashing identifier sets are refused exactly; '
+         'every entry of the lexicon is exported once, in order, with id, pos, lemma (rank-0 form), forms in rank order and its senses '
+         'in entry-rank order, every synset once; subcat (>= 1.1) lists exactly the linked behaviours that have an id and 1.0 frames '
+         'list exactly the linked senses; the ili attribute is the ILI id / "in" for a proposed ILI / "" otherwise (under '
+         'ili_ids_ok; refuted without it by a witness); members are the senses in synset-rank order. Not proved: that the remaining '
+         'attributes (definitions, examples, counts, relations, metadata, requires) are copied — these and the composition with '
+         'dump, load and add are decided by correspondence and by the round-trip oracle. Known finding F18 (frames without id).',
+         'Trusted: Coq kernel + vm_compute; SQLite semantics as modelled in Model/Tables.v, Model/Query.v and the three extra queries '
+         'in Model/Export.v (scan order of find_syntactic_behaviours checked against EXPLAIN QUERY PLAN by the model author, '
+         'validated by correspondence); JSON metadata decoded by the harness (injective code in the model); correspondence harness '
+         'and round-trip oracle (Python).',
+         'DESIGN.md section 5 C03, Appendix E'),
+})
+
 NOT_YET = 'not covered yet in this round: model, theorems and correspondence are planned (DESIGN.md sections 5 and 9) but no sound check is registered, so nothing is claimed'
 
 def main():
